@@ -163,6 +163,13 @@ theorem deleteLoop_editOk (tag : String) (w : Warn) (ids : List Key) (cs : List 
 def IdsOk (k : Kind) (nm : Named) (cs : List Xml) : Prop :=
   ∀ ids, cIds k nm cs = some ids → (∀ x ∈ ids, x.isSome = true) ∧ ids.Nodup
 
+/-- with every ID present, "not named" and "not (present and named)" select the same IDs -/
+theorem filter_named_some (ids ss : List Key) (hs : ∀ x ∈ ids, x.isSome = true) :
+    ids.filter (fun x => !ss.contains x) = ids.filter (fun x => !(x.isSome && ss.contains x)) := by
+  apply List.filter_congr
+  intro x hx
+  simp [hs x hx]
+
 theorem c06_StoryDelete (d rc base : Xml) (hrc : rcOf d = some rc)
     (hid : IdsOk .StoryDelete (namedOf .StoryDelete base) rc.kids) :
     C06Out .StoryDelete d rc base := by
@@ -175,7 +182,7 @@ theorem c06_StoryDelete (d rc base : Xml) (hrc : rcOf d = some rc)
   · simp only [he.warns, expectedWarns, hrc]; rfl
   · unfold GrpOk
     simp only [Kind.group]
-    rw [cIds_story _ _ _ rfl, cIds_story _ _ _ rfl, he.keys]
+    rw [cIds_story _ _ _ rfl, cIds_story _ _ _ rfl, he.keys, filter_named_some _ _ hs]
     rfl
 
 theorem c06_EAStoryDelete (d rc base : Xml) (hrc : rcOf d = some rc)
@@ -190,7 +197,7 @@ theorem c06_EAStoryDelete (d rc base : Xml) (hrc : rcOf d = some rc)
   · simp only [he.warns, expectedWarns, hrc]; rfl
   · unfold GrpOk
     simp only [Kind.group]
-    rw [cIds_story _ _ _ rfl, cIds_story _ _ _ rfl, he.keys]
+    rw [cIds_story _ _ _ rfl, cIds_story _ _ _ rfl, he.keys, filter_named_some _ _ hs]
     rfl
 
 theorem c06_ItemDelete (d rc base : Xml) (hrc : rcOf d = some rc)
@@ -219,7 +226,7 @@ theorem c06_ItemDelete (d rc base : Xml) (hrc : rcOf d = some rc)
       simp only [Kind.group]
       rw [c0]
       simp only
-      rw [c2]
+      rw [c2, filter_named_some _ _ hs]
       rfl
 
 theorem c06_EAItemDelete (d rc base : Xml) (hrc : rcOf d = some rc)
@@ -261,7 +268,7 @@ theorem c06_EAItemDelete (d rc base : Xml) (hrc : rcOf d = some rc)
       simp only [Kind.group]
       rw [c0]
       simp only
-      rw [c2]
+      rw [c2, filter_named_some _ _ hs]
       rfl
 
 /-! ### story inserts -/
